@@ -369,6 +369,103 @@ def corr1_cases(rng, n):
     return cases
 
 
+# ------------------------------------------------------------------ corr1 for statements (JS text + model tokens)
+class SGen:
+    """Statements of the modelled fragment (expression / empty / var statements, blocks, if, while, do-while, for with an
+    expression initialiser, return, throw; no break/continue/labels/lexical declarations), over EGen expressions."""
+
+    def __init__(self, rng, ctx, strict):
+        self.r, self.ctx, self.strict = rng, ctx, strict
+        self.e = EGen(rng, "g" if ctx == "G" else ctx, strict)
+
+    def ex(self, d):
+        """an expression in parentheses (so that it cannot be taken for a declaration or a block)"""
+        r = self.r
+        if r.random() < 0.25:
+            x = self.e.const(2)
+            js, toks = x[0], x[1]
+        else:
+            js, toks = self.e.expr(r.choice([0, 1, 1, 2, d]))
+        return "(%s)" % js, toks
+
+    def var_target(self):
+        if self.ctx == "G":
+            return "g3", "gl"
+        return ("v", "sv") if (self.ctx == "n" or self.r.random() < 0.5) else ("w", "sv")
+
+    def stmt(self, d):
+        r = self.r
+        k = r.randrange(16) if d > 0 else r.choice([0, 0, 0, 1, 2, 3, 13, 14, 15])
+        if k in (0, 11, 12):
+            js, t = self.ex(2)
+            return js + ";", ["s:expr"] + t
+        if k == 1:
+            return ";", ["s:empty"]
+        if k == 2:
+            n, _ = self.var_target()
+            return "var %s;" % n, ["s:var0"]
+        if k == 3:
+            n, c = self.var_target()
+            js, t = self.ex(2)
+            return "var %s = %s;" % (n, js), ["s:var:" + c] + t
+        if k == 4:
+            n = r.randrange(4)
+            xs = [self.stmt(d - 1) for _ in range(n)]
+            return "{ " + " ".join(x[0] for x in xs) + " }", ["s:block:%d" % n] + [t for x in xs for t in x[1]]
+        if k == 5:
+            c, a = self.ex(2), self.stmt(d - 1)
+            return "if %s %s" % (c[0], a[0]), ["s:if"] + c[1] + a[1]
+        if k == 6:
+            c, a, b = self.ex(2), self.stmt(d - 1), self.stmt(d - 1)
+            if a[1][0].split(":")[1] in ("if", "ifelse", "while", "for"):   # no dangling else
+                a = ("{ %s }" % a[0], ["s:block:1"] + a[1])
+            return "if %s %s else %s" % (c[0], a[0], b[0]), ["s:ifelse"] + c[1] + a[1] + b[1]
+        if k == 7:
+            c, a = self.ex(2), self.stmt(d - 1)
+            return "while %s %s" % (c[0], a[0]), ["s:while"] + c[1] + a[1]
+        if k == 8:
+            a, c = self.stmt(d - 1), self.ex(2)
+            return "do %s while %s;" % (a[0], c[0]), ["s:do"] + a[1] + c[1]
+        if k in (9, 10):
+            m = [r.random() < 0.6, r.random() < 0.7, r.random() < 0.6]
+            parts = [self.ex(2) if x else ("", []) for x in m]
+            a = self.stmt(d - 1)
+            return ("for (%s; %s; %s) %s" % (parts[0][0], parts[1][0], parts[2][0], a[0]),
+                    ["s:for:" + "".join("1" if x else "0" for x in m)] + parts[0][1] + parts[1][1] + parts[2][1] + a[1])
+        if k == 13 and self.ctx != "G":
+            if r.random() < 0.3:
+                return "return;", ["s:ret0"]
+            js, t = self.ex(2)
+            return "return %s;" % js, ["s:ret"] + t
+        if k == 14:
+            js, t = self.ex(2)
+            return "throw %s;" % js, ["s:throw"] + t
+        js, t = self.ex(1)
+        return js + ";", ["s:expr"] + t
+
+
+def wrap_stmt(ctx, strict, js):
+    us = '"use strict"; ' if strict else ""
+    if ctx == "G":   # program body: needResult; the end marker has an empty result so that the statement is the last producing one
+        return us + 'var g3, zz; "@@1".m; %s var zz = "@@2";' % js
+    body = '"@@1".m; %s "@@2".m;' % js
+    if ctx == "f":
+        return us + "function f(a, b) { var v, w; let l = 1, m; const k = 2; %s }" % body
+    return "(function nf(a) { var v; let l = 1; const k = 2; %s })" % body
+
+
+def corr1_stmt_cases(rng, n):
+    cases = []
+    for i in range(n):
+        ctx = rng.choice(["f", "G", "G", "n"])
+        strict = (ctx != "n") and rng.random() < 0.35
+        g = SGen(rng, ctx, strict)
+        js, toks = g.stmt(rng.choice([0, 1, 1, 2, 2, 3]))
+        cases.append({"ctx": ctx, "strict": strict, "js": js, "toks": toks, "nr": 1 if ctx == "G" else 0,
+                      "src": wrap_stmt(ctx, strict, js)})
+    return cases
+
+
 # ------------------------------------------------------------------ shrinking and signatures
 TOK = re.compile(r"\s+|[A-Za-z_$#][\w$]*|\d[\w.]*|\"(?:\\.|[^\"\\])*\"?|'(?:\\.|[^'\\])*'?|>>>=|\.\.\.|===|!==|\*\*=|<<=|>>=|>>>|&&=|\|\|=|\?\?=|=>|==|!=|<=|>=|&&|\|\||\?\?|\?\.|\+\+|--|[-+*/%&|^]=|<<|>>|\*\*|\$\{|.", re.S)
 
@@ -480,12 +577,16 @@ def main(ctx):
     # theorems + model driver first; the Tie theorems separately, so that a tie broken by a change in /repo does not take
     # the model driver (needed by the correspondences and by the search for a failing input) down with it
     lean_ok, errs = ctx.lake_build(["GojaModel.C01.Props", "model_c01"])
-    names = ctx.audit("GojaModel.C01.Props", expect_min=16) if lean_ok else []
+    names = ctx.audit("GojaModel.C01.Props", expect_min=24) if lean_ok else []
     tie_ok, terrs = ctx.lake_build(["GojaModel.C01.Tie"])
     if tie_ok:
         for t in ["modelOps_agree", "tie_new", "tie_rdupN", "tie_dupLast", "tie_concatStrings", "new_instance", "jumps_agree",
-                  "dyn_covered", "emitSetP_pops", "enterFinally_clears", "exceptionFromValue_cases", "asUncatchable_cases",
-                  "recover_sites"]:
+                  "dyn_covered", "emitSetP_pops", "enterFinally_clears", "hasStash_decision", "scope_runtime_side", "exceptionFromValue_cases", "asUncatchable_cases",
+                  "recover_sites", "isEmptyResult_cases"] + ["stmt_skel_" + n for n in (
+                      "compileExpressionStatement", "compileEmptyStatement", "compileIfStatement", "compileIfBody",
+                      "compileLabeledWhileStatement", "compileLabeledDoWhileStatement", "compileLabeledForStatement",
+                      "compileReturnStatement", "compileThrowStatement", "emitVarAssign", "compileStatements",
+                      "compileStatementsNeedResult", "scanStatements")]:
             ctx.obligation("tie:" + t, "tie", True, "checked by lake build GojaModel.C01.Tie")
     else:
         ctx.obligation("tie:GojaModel.C01.Tie", "tie", False,
@@ -652,6 +753,40 @@ def main(ctx):
     else:
         ctx.obligation("corr:emit-bytecode-exact", "correspondence", False, "model driver unavailable (Lean build failed)")
 
+    # ---------------------------------------------------------------- corr1 for statements
+    n1s = 1200 if quick else 10000
+    scases = corr1_stmt_cases(ctx.rng, n1s)
+    simpl = [H.ask("compile %s %s" % ("G" if c["ctx"] == "G" else "f", HEX(c["src"]))) for c in scases]
+    if have_model:
+        agree1s, smism, sill, sheads, scompiled = True, [], [], {}, 0
+        for c, im in zip(scases, simpl):
+            if im.startswith("ERR"):
+                sheads["compile-error"] = sheads.get("compile-error", 0) + 1
+                continue
+            scompiled += 1
+            mo = M.ask("emits %d %d %s" % (1 if c["strict"] else 0, c["nr"], " ".join(c["toks"])))
+            code, _, info = mo.partition(" | ")
+            ctx.count()
+            hd = c["toks"][0].split(":")[1]
+            sheads[hd] = sheads.get(hd, 0) + 1
+            ctx.nontriv("c1s:" + code + "|" + c["ctx"])
+            if code.strip() != im.strip():
+                agree1s = False
+                if len(smism) < 5:
+                    smism.append({"src": c["src"], "toks": " ".join(c["toks"]), "model": code, "impl": im})
+            elif "ILL-FORMED" in info or "verify=false" in info or "unresolved" in info or mo.startswith("error"):
+                sill.append(c)
+        for c in scases[:2]:
+            ctx.sample({"corr1-stmt": c["src"][:200]})
+        ctx.stats["corr1_stmt"] = {"cases": n1s, "compiled": scompiled, "by_head": sheads, "ill_formed_by_model": len(sill)}
+        ctx.obligation("corr:emit-statements-bytecode-exact", "correspondence", agree1s and scompiled > n1s // 2,
+                       json.dumps(smism)[:1800] if smism else "compiled=%d" % scompiled)
+        ctx.obligation("corr:emitted-statements-pass-model-checks", "correspondence", not sill,
+                       json.dumps([{"src": c["src"], "toks": " ".join(c["toks"])} for c in sill[:3]])[:1500] if sill
+                       else "height function and proven verifier accept every emitted statement")
+    else:
+        ctx.obligation("corr:emit-statements-bytecode-exact", "correspondence", False, "model driver unavailable (Lean build failed)")
+
     # ---------------------------------------------------------------- classifier correspondence (exhaustive over the payload kinds)
     kinds = ["Object", "Value", "Exception", "typeError", "referenceError", "rangeError", "syntaxError", "InterruptedError",
              "StackOverflowError", "wrappedUncatchable", "CompilerSyntaxError", "CompilerReferenceError", "goError", "runtimeError",
@@ -739,7 +874,7 @@ def main(ctx):
                    not ctx.violations and unattributed == 0, "; ".join(v["signature"] for v in ctx.violations[:5]))
 
     # corr2: every distinct unit through the proven verifier (sharded over model processes)
-    rejects, unknown_instr, nunits = [], {}, 0
+    rejects, unknown_instr, nunits, kinds_seen = [], {}, 0, {}
     if have_model:
         mprocs = []
         for sh, p, pfx in procs:
@@ -753,6 +888,7 @@ def main(ctx):
             ids = [l.split(" ", 3)[:3] for l in open(pfx + ".dump", errors="replace")]
             nunits += len(answers)
             for (pid, ui, kind), a in zip(ids, answers):
+                kinds_seen[kind] = kinds_seen.get(kind, 0) + 1
                 if a.startswith("ok"):
                     ctx.nontriv("u:" + pfx[-3:] + pid + "." + ui)
                     continue
@@ -762,7 +898,11 @@ def main(ctx):
         written = sum(x.get("units_written", 0) for x in sums)
         werrs = sorted(set(x.get("write_error", "") for x in sums) - {""})
         ctx.stats["corr2"] = {"distinct_units_verified": nunits, "units_written_by_harness": written, "write_errors": werrs,
-                              "rejected": len(rejects), "unresolved_instructions": unknown_instr}
+                              "rejected": len(rejects), "unresolved_instructions": unknown_instr, "units_by_kind": kinds_seen}
+        # code compiled at run time by eval is captured by the hook and verified like the rest
+        ctx.obligation("corr:eval-compiled-code-verified", "correspondence", kinds_seen.get("eval", 0) > 0,
+                       "%d program units compiled by eval at run time went through the verifier (units by kind: %s)"
+                       % (kinds_seen.get("eval", 0), json.dumps(kinds_seen, sort_keys=True)))
         # every unit the shards compiled must have been seen by the verifier (a truncated dump file, e.g. a transient
         # disk-full, would otherwise silently shrink the coverage)
         ctx.obligation("corr:verifier-saw-every-unit", "correspondence", nunits == written and not werrs,
